@@ -96,3 +96,33 @@ func VerifH16b() {
 	p.Stop()
 	nd.Reach("H16b.end")
 }
+
+// VerifH16c: orders around the first Run: Send and Stop on a pool that was never run, then
+// Run, Send, Stop, Stop, Send: no panic, no deadlock, jobs sent while not running are not run later.
+func VerifH16c() {
+	nd.SetPreemptionBound(1)
+	p := New(Options{NumWorkers: 1, SendDuration: 1})
+	ctx := context.Background()
+	counts := make([]int, 3)
+	job := func(i int) Event {
+		return Event{Caller: "verif", Fn: func(ctx context.Context) error { counts[i]++; return nil }}
+	}
+	switch nd.Choice("before-run", 3) {
+	case 1:
+		p.Send(ctx, job(0)) // not running: must neither panic nor block
+		nd.Reach("H16c.send-before-run")
+	case 2:
+		p.Stop()
+	}
+	p.Run(ctx)
+	p.Send(ctx, job(1))
+	nd.Quiescent()
+	nd.Assert(counts[1] == 1, "H16c.job-while-running")
+	p.Stop()
+	p.Stop()
+	p.Send(ctx, job(2))
+	nd.Quiescent()
+	nd.Assert(counts[2] == 0, "H16c.job-after-stop-not-run")
+	nd.Assert(counts[0] <= 1, "H16c.early-job-at-most-once")
+	nd.Reach("H16c.end")
+}
